@@ -89,7 +89,9 @@ def op_tokens(op, aux=None):
         return (['ro'] + list_tok(op[1] or [], lambda n: [name_tok(n)]) +
                 list_tok(op[2] or [], lambda c: [name_tok(c[0]), name_tok(c[1])]))
     if k == 'rename_blocks':
-        return ['rb'] + list_tok(op[1], lambda kv: [name_tok(kv[0]), name_tok(kv[1])]) + ['1' if op[2] else '0']
+        # the argument is a Python dict: a key listed twice keeps its first position and its last value
+        m = list(dict((a, b) for a, b in op[1]).items())
+        return ['rb'] + list_tok(m, lambda kv: [name_tok(kv[0]), name_tok(kv[1])]) + ['1' if op[2] else '0']
     if k == 'minc':
         a, d = aux if aux else ([], [])
         return (['mi'] + list_tok(op[1], lambda v: [rat_tok(v)]) + list_tok(a, lambda v: [rat_tok(v)]) +
@@ -101,6 +103,7 @@ def op_tokens(op, aux=None):
     if k == 'again_block': return ['gb', name_tok(op[1])]
     if k == 'add': return ['ag'] + spec_tok(op[1]) + ['1' if op[2] else '0']
     if k == 'embed': return ['em'] + spec_tok(op[1]) + [name_tok(op[2]), name_tok(op[3])] + pay_tok(op[4])
+    if k == 'embed_standalone': return ['es'] + spec_tok(op[1]) + [name_tok(op[2]), name_tok(op[3])] + pay_tok(op[4]) + [rat_tok(op[5])]
     raise RuntimeError('unknown op %r' % (op,))
 
 
@@ -245,6 +248,19 @@ def apply_op(g, op, reg=None):
             elif k == 'embed':
                 sub = build_spec(op[1], reg)
                 host = g.block[op[2]] if op[2] in g.block else default_block(op[2], reg)
+                sb = sub.block[op[3]] if op[3] in sub.block else default_block(op[3], reg)
+                r = g.embed(sub, reg.con(make_con([host, sb], op[4])))
+                if r is None:
+                    res.flag = False
+                else:
+                    res.grid = r
+            elif k == 'embed_standalone':
+                # the connection's host block is a standalone t2block that only carries the host's name
+                # (like a block of a copy of the grid, or of the grid before a write/read)
+                sub = build_spec(op[1], reg)
+                host = t.t2block(op[2], op[5])
+                host.rocktype.density = 0.0
+                reg.rock(host.rocktype); reg.block(host)
                 sb = sub.block[op[3]] if op[3] in sub.block else default_block(op[3], reg)
                 r = g.embed(sub, reg.con(make_con([host, sb], op[4])))
                 if r is None:
@@ -511,7 +527,7 @@ def classify(g, op, reg=None):
                 names = set(b.name for b in g.blocklist)
                 if any(s['blocks'][c[0]][0] in names or s['blocks'][c[1]][0] in names for c in s['cons']): finding = 'F1'
                 elif not rocks_ok: finding = 'F2'
-    elif k == 'embed':
+    elif k in ('embed', 'embed_standalone'):
         s = op[1]
         sok = spec_ok(s) and op[2] in g.block and any(b[0] == op[3] for b in s['blocks'])
         rocks_ok = all(not rock_name_in_use(g, r[0]) for r in s['rocks'])
